@@ -3,6 +3,7 @@ package c10
 import (
 	"fmt"
 	"testing"
+	"time"
 
 	"github.com/idena-network/idena-go/blockchain/types"
 	"github.com/idena-network/idena-go/common"
@@ -273,6 +274,96 @@ func TestRegistryIncrementalVsLoad(t *testing.T) {
 			evid.Count("diffseq.multi_with_pool_owner")
 			evid.NonTrivial(fmt.Sprintf("diffseq|%v", trace))
 			evid.Sample("diff-sequence", trace)
+		}
+	})
+}
+
+// A fast-synced node: identity diffs replayed, state snapshot imported, atomic
+// switch. Its validator view must equal a rebuilt one and the view of the node
+// that executed every block, and it must then follow the chain.
+func TestFastSyncedNodeView(t *testing.T) {
+	rapid.Check(t, func(t *rapid.T) {
+		evid.Eval()
+		steps := rapid.IntRange(8, 30).Draw(t, "steps")
+		var early dbm.DB
+		earlyAt := rapid.IntRange(0, 5).Draw(t, "syncFrom")
+		opt := sim.Options{MinActors: 5, MaxActors: 10, Replicas: 1, MaxReplicas: 3, Steps: steps, MaxTxPerStep: 6, OnlyTypes: identityHeavy}
+		opt.Params = func(p *sim.Params) {
+			for i := range p.States {
+				if i > 0 && i%3 != 0 && p.States[i] == state.Undefined {
+					p.States[i] = state.Verified
+					p.Stakes[i] = sim.Dna(int64(10 + i))
+				}
+			}
+		}
+		opt.BetweenBlocks = func(h *sim.History) {
+			if len(h.Blocks) == earlyAt && early == nil {
+				early = sim.CopyDB(h.W.Replicas[0].DB)
+			}
+		}
+		h := sim.RunHistory(t, opt)
+		w := h.W
+		src := w.Replicas[0]
+		if early == nil {
+			t.Fatalf("no early image")
+		}
+		dst := &sim.Replica{W: w, Name: "fast-synced", Key: w.Actors[1].Key, Addr: w.Actors[1].Addr, DB: early, Ipfs: src.Ipfs, Loc: time.UTC}
+		if err := dst.Start(); err != nil {
+			t.Fatalf("start: %v", err)
+		}
+		back := rapid.IntRange(0, 3).Draw(t, "snapshotBack")
+		target := src.Head().Height() - uint64(back)
+		if target <= dst.Head().Height() {
+			return
+		}
+		fsView, err := sim.FastSync(src, dst, target, nil)
+		if err != nil {
+			t.Fatalf("fast sync from %d to %d fails against an honest source: %v\nhistory:\n%s", dst.Head().Height(), target, err, h.Summary())
+		}
+		if dst.Head().Height() != target || dst.Head().Root() != dst.AppState.State.Root() || dst.Head().IdentityRoot() != dst.AppState.IdentityState.Root() {
+			t.Fatalf("after the switch head %d / roots do not match the loaded state", dst.Head().Height())
+		}
+		var addrs []common.Address
+		for _, a := range w.Actors {
+			addrs = append(addrs, a.Addr)
+		}
+		srcAt, err := src.AppState.Readonly(target)
+		if err != nil {
+			t.Fatal(err)
+		}
+		fresh := validators.NewValidatorsCache(dst.AppState.IdentityState, dst.AppState.State.GodAddress())
+		fresh.Load()
+		if d := sim.CompareVC(dst.AppState.ValidatorsCache, fresh, addrs, w.Name, seeds()); len(d) > 0 {
+			t.Fatalf("validator view of the fast-synced node differs from a rebuilt one: %v\nhistory:\n%s", d, h.Summary())
+		}
+		if d := sim.CompareVC(dst.AppState.ValidatorsCache, srcAt.ValidatorsCache, addrs, w.Name, seeds()); len(d) > 0 {
+			t.Fatalf("validator view of the fast-synced node differs from the node that executed every block: %v\nhistory:\n%s", d, h.Summary())
+		}
+		// the view fast sync itself maintained from the diffs (used for certificate checks while syncing). The god
+		// address is not part of the identity state, so committees in god-only mode are not compared for it.
+		fsSeeds := seeds()
+		if fsView.OnlineSize() == 0 {
+			fsSeeds = nil
+		}
+		if d := sim.CompareVC(fsView, srcAt.ValidatorsCache, addrs, w.Name, fsSeeds); len(d) > 0 {
+			t.Fatalf("validator view maintained from the identity diffs during fast sync differs from the node that executed every block: %v\nhistory:\n%s", d, h.Summary())
+		}
+		// and it follows the chain from there
+		for x := target + 1; x <= src.Head().Height(); x++ {
+			if err := dst.AddBlock(src.Chain.GetBlockByHeight(x)); err != nil {
+				t.Fatalf("fast-synced node refuses block %d: %v\nhistory:\n%s", x, err, h.Summary())
+			}
+		}
+		if dst.Head().Hash() != src.Head().Hash() || dst.AppState.State.Root() != src.AppState.State.Root() || dst.AppState.IdentityState.Root() != src.AppState.IdentityState.Root() {
+			t.Fatalf("fast-synced node does not reach the source's head/state")
+		}
+		evid.Count("fastsync.ok")
+		if h.Flags["IdUpd"] > 0 {
+			evid.Count("fastsync.across_identity_update")
+			evid.NonTrivial("fs|" + h.Descriptor())
+		}
+		if back > 0 {
+			evid.Count("fastsync.then_followed_blocks")
 		}
 	})
 }
